@@ -38,7 +38,7 @@ def gen_C01(tier, rng):
 
 def eval_C01(case):
     from lbfgsb import minimize_lbfgsb
-    from lbfgsb.base import projgr
+    from harness.runs import ref_projgr as projgr   # the harness's own implementation, not the package's
 
     P = gen.make_problem(case["spec"])
     x0 = P.x0.copy()
